@@ -23,6 +23,7 @@ CLAIMED = {
  "C17": (LEVEL + "Every exported method and package-level function is enumerated from go/types method sets of the tree under test at run time (a method added later is covered automatically) and called on zero / freed / Init()-only receivers with symbolic ints and bools and a catalogue of awkward values.", COMMON_NOTE),
  "C09": (LEVEL + "Every exported method of the tree under test (enumerated at run time) is called on a read-only receiver with nested content; a deep snapshot of every configuration field, closure identity and nested instance is compared before/after by solver-decided assertions.", COMMON_NOTE),
  "C11": (LEVEL + "Every exported non-mutator is run with the engine's write log armed: any store into memory that existed before the call (receiver graph and package globals) is a violation on every explored path, which is what makes concurrent readers race-free; such a finding is confirmed natively by running the query from two goroutines under the Go race detector.", COMMON_NOTE + "; the concurrency claim is the inference no-write => no race among readers (Go memory model), not a free-running stress run"),
+ "C06": (LEVEL + "One setter call from an arbitrary Condition state plus bounded setter histories; the built-in operator code offered is an 8-bit solver variable (the valid range 1..6 is found, not listed); Valid/String equivalence and the rendering grammar asserted in every state.", COMMON_NOTE),
 }
 _pending = "check not built yet in this round (solver-based harness planned, DESIGN.md §4); not a statement that the technique cannot apply"
 NA = {("C%02d" % i): _pending for i in range(1, 21) if ("C%02d" % i) not in CLAIMED}
